@@ -25,7 +25,7 @@ CLS = "gmlc::concurrency::SearchableObjectHolder"
 
 
 def run(ctx):
-    ctx.rule("C17.guard", "A3: objectMap and typeMap are only touched with mapLock held (blocking RAII)", floor=30)
+    ctx.rule("C17.guard", "A3: objectMap and typeMap are only touched with mapLock held (blocking RAII)", floor=15)
     ctx.step(check_guarded_fields, ctx, "C17.guard", CLS)
     fns = [f for f in ctx.fb.functions() if f.file.endswith("/SearchableObjectHolder.hpp")]
     ctx.step(c13.uaf, ctx, "C17.iter", fns, floor=10)
@@ -37,7 +37,7 @@ def run(ctx):
 def value(ctx):
     rid = "C17.value"
     ctx.rule(rid, "public operations return bool / shared_ptr / vector by value: nothing pointing into the maps escapes",
-             floor=10)
+             floor=5)
     for f in ctx.fb.functions(rec=CLS):
         if f.access != "public" or f.kind in ("ctor", "dtor"):
             continue
